@@ -62,6 +62,7 @@ def j1_one(scn):
         res.update(ok=False, why=f'exit status {rc} vs model {x.rc} '
                    f'{x.crash and x.crash[:2]}: {err[-300:]}')
     elif norm_seq(model_seq) != norm_seq(real_seq) and \
+            not modulo_stale(model_seq, real_seq, x, data, res) and \
             not included(scn, real_seq, data, res):
         i = next((i for i, (a, b) in enumerate(zip(norm_seq(model_seq),
                                                    norm_seq(real_seq)))
@@ -75,6 +76,31 @@ def j1_one(scn):
         res.update(ok=False, why=f'output differs: model {x.out_bytes!r} '
                    f'real {data!r}')
     return res
+
+
+def modulo_stale(model_seq, real_seq, x, real_out, res):
+    """With one worker the real pool may run queued, already stale tasks
+    between a success and the moment the main loop sets the abort flag (more
+    of them on a loaded machine).  The real run is accepted as the model's
+    default trace if the outputs agree, the model's candidate sequence is a
+    subsequence of the real one, and the surplus is small relative to the
+    number of acceptances."""
+    if FRESH.sub('x#__fresh', (x.out_bytes or b'').decode()) != \
+            FRESH.sub('x#__fresh', (real_out or b'').decode()):
+        return False
+    want = norm_seq(model_seq)
+    got = norm_seq(real_seq)
+    i = 0
+    for g in got:
+        if i < len(want) and g == want[i]:
+            i += 1
+    if i != len(want):
+        return False
+    acc = sum(1 for e in x.log if e[0] == 'write')
+    if len(got) - len(want) > 4 * max(acc, 1):
+        return False
+    res['matched_modulo_stale'] = len(got) - len(want)
+    return True
 
 
 def included(scn, real_seq, real_out, res, max_execs=4000):
@@ -122,6 +148,8 @@ def j1_conformance(rep, scenarios):
               sum(r['n'] for r in results))
     rep.count('real_traces_matched_by_a_non_default_schedule',
               sum(1 for r in results if r.get('matched_with_deviations')))
+    rep.count('real_traces_with_stale_invocations',
+              sum(1 for r in results if r.get('matched_modulo_stale')))
     if bad:
         raise common.HarnessError(
             'conformance mismatch between the in-process model and the real '
